@@ -6,8 +6,13 @@ macro_rules! sel {
     (undirected, { $($a:tt)* }, { $($b:tt)* }) => { $($b)* };
 }
 
+macro_rules! sel2 {
+    (sync, { $($a:tt)* }, { $($b:tt)* }) => { $($a)* };
+    (plain, { $($a:tt)* }, { $($b:tt)* }) => { $($b)* };
+}
+
 macro_rules! flavour_impl {
-    ($kind:ident) => {
+    ($kind:ident, $sync:ident) => {
         pub enum Kept {
             Node(Option<Node<K, N, E>>),
             Path(Option<Vec<Edge<K, N, E>>>),
@@ -20,6 +25,23 @@ macro_rules! flavour_impl {
             pub ids: Vec<usize>,
             pub graph: Option<Graph<K, N, E>>,
             pub kept: RefCell<Vec<(String, Kept)>>,
+        }
+
+        fn thread_step(nodes: &[Node<K, N, E>], st: &Value) -> Value {
+            let a = st.as_array().unwrap();
+            match a[0].as_str().unwrap() {
+                "connect" => { nodes[us(&a[1])].connect(&nodes[us(&a[2])], i6(&a[3])); json!("ok") }
+                "try_connect" => match nodes[us(&a[1])].try_connect(&nodes[us(&a[2])], i6(&a[3])) { Ok(()) => json!("ok"), Err(e) => json!(format!("err:{:?}", e)) },
+                "disconnect" => match nodes[us(&a[1])].disconnect(&us(&a[2])) { Ok(x) => json!(["ok", x]), Err(e) => json!(format!("err:{:?}", e)) },
+                "isolate" => { nodes[us(&a[1])].isolate(); json!("ok") }
+                "degq" => { let n = &nodes[us(&a[1])]; sel!($kind, { json!([n.out_degree(), n.in_degree()]) }, { json!([n.degree()]) }) }
+                "search" => {
+                    let root = &nodes[us(&a[1]["root"])];
+                    let r = root.bfs().search_path();
+                    json!({"result": r.map(|p| Value::Array(p.edges.iter().map(edge_json).collect())), "calls": []})
+                }
+                x => json!({"error": format!("thread step {}", x)}),
+            }
         }
 
         fn edge_json(e: &Edge<K, N, E>) -> Value {
@@ -395,9 +417,67 @@ macro_rules! flavour_impl {
                 }
             }
 
+            fn run_threads(&self, scripts: &Value, schedule: &Value) -> Value {
+                sel2!($sync, { {
+                    let scripts: Vec<Vec<Value>> = scripts.as_array().unwrap().iter().map(|s| s.as_array().unwrap().clone()).collect();
+                    let n = scripts.len();
+                    // schedule = {"stress": iterations}: every thread repeats its script, free running
+                    let iters: usize = schedule.get("stress").and_then(|v| v.as_u64()).unwrap_or(1) as usize;
+                    sched::reset(n);
+                    let results: std::sync::Arc<std::sync::Mutex<Vec<Vec<Value>>>> = std::sync::Arc::new(std::sync::Mutex::new(vec![vec![]; n]));
+                    let mut handles = vec![];
+                    for (i, script) in scripts.into_iter().enumerate() {
+                        let nodes: Vec<Node<K, N, E>> = self.nodes.iter().cloned().collect();
+                        let results = results.clone();
+                        handles.push(std::thread::Builder::new().stack_size(16 << 20).spawn(move || {
+                            sched::TID.with(|t| t.set(i + 1));
+                            sched::park();
+                            'outer: for it in 0..iters {
+                                for st in &script {
+                                    let r = catch_unwind(AssertUnwindSafe(|| thread_step(&nodes, st)));
+                                    let (v, stop) = match r { Ok(v) => (v, false), Err(e) => (json!({"panic": panic_msg(e)}), true) };
+                                    if it == 0 || stop {
+                                        results.lock().unwrap_or_else(|e| e.into_inner())[i].push(v);
+                                    }
+                                    if stop { break 'outer; }
+                                }
+                            }
+                            std::mem::forget(nodes);
+                            sched::finished();
+                        }).unwrap());
+                    }
+                    sched::wait_all_parked(n, 2000);
+                    if let Some(sch) = schedule.as_array() {
+                        for ent in sch {
+                            sched::step(us(&ent[0]), 120);
+                        }
+                    }
+                    let all = sched::free_run_and_wait(n, if iters > 1 { 8000 } else { 1500 });
+                    let rets = results.lock().unwrap_or_else(|e| e.into_inner()).clone();
+                    let panicked = rets.iter().any(|r| r.last().map(|v| v.get("panic").is_some()).unwrap_or(false));
+                    let outcome = if !all { "deadlock" } else if panicked { "panic" } else { "ok" };
+                    if all { for h in handles { let _ = h.join(); } }
+                    json!({"outcome": outcome, "returns": rets})
+                } }, { {
+                    json!({"error": "threads need a sync flavour"})
+                } })
+            }
+
             fn step_ro(&self, st: &Value) -> Option<Value> {
                 let a = st.as_array().unwrap();
                 Some(match a[0].as_str().unwrap() {
+                    "threads" => {
+                        let r = self.run_threads(&a[1], if a.len() > 2 { &a[2] } else { &Value::Null });
+                        if r["outcome"] == json!("deadlock") {
+                            // blocked threads cannot be joined: report and let the watchdog path end the process
+                            return Some(json!({"outcome": "deadlock", "returns": r["returns"], "hang": true}));
+                        }
+                        r
+                    }
+                    "degq" => {
+                        let n = &self.nodes[us(&a[1])];
+                        sel!($kind, { json!([n.out_degree(), n.in_degree()]) }, { json!([n.degree()]) })
+                    }
                     "connect" => {
                         let e = i6(&a[3]);
                         self.with_handle(&a[1], |u| self.with_handle(&a[2], |v| u.connect(v, e)));
